@@ -48,7 +48,35 @@ func Isomorphic(a, b []*Statement, decomp bool, h hash.Hash) bool {
 			return false
 		}
 	}
+
+	// The same multiset of node hashes is necessary but not sufficient: the
+	// statements themselves, with each blank node replaced by its hash, must
+	// be the same in both datasets.
+	as := hashedStatements(a, ah)
+	bs := hashedStatements(b, bh)
+	for i := range as {
+		if as[i] != bs[i] {
+			return false
+		}
+	}
 	return true
+}
+
+// hashedStatements returns the sorted list of statements with each blank node
+// replaced by its hash.
+func hashedStatements(statements []*Statement, hashes map[string][]byte) []string {
+	term := func(t string) string {
+		if isBlank(t) {
+			return "_:" + string(hex(hashes[t]))
+		}
+		return t
+	}
+	dst := make([]string, len(statements))
+	for i, s := range statements {
+		dst[i] = term(s.Subject.Value) + " " + s.Predicate.Value + " " + term(s.Object.Value) + " " + term(s.Label.Value)
+	}
+	sort.Strings(dst)
+	return dst
 }
 
 func lexicalHashes(dst [][]byte, hashes map[string][]byte) {
